@@ -236,7 +236,10 @@ def run(ctx):
     hk = ira.find_expr(lambda e: isinstance(e, ast.Call) and isinstance(e.func, ast.Attribute) and e.func.attr == "resume" and isinstance(e.func.value, ast.Attribute) and e.func.value.attr == "proposal")
     for store in ("training_samples.log_q", "iid_samples.log_q"):
         st = ira.find(lambda s: isinstance(s, ast.Assign) and any(src(x).endswith("." + store) for t in s.targets for x in ast.walk(t) if isinstance(x, ast.Attribute)))
-        ok = len(st) == 1 and hk and ira.dominates(hk[0][0], st[0]) and "compute_meta_proposal_samples" in src(ira.stmt(st[0]).value)
+        from ..rules import samestore as _ss12
+
+        prod_ = [c_ for f_, s_, store_, c_, i_ in _ss12.sites(prog) if f_.qual == ir.qual and st and s_ is ira.stmt(st[0])]
+        ok = len(st) == 1 and hk and ira.dominates(hk[0][0], st[0]) and len(prod_) == 1 and prod_[0] is not None and isinstance(prod_[0].func, ast.Attribute) and prod_[0].func.attr == "compute_meta_proposal_samples"
         guards = [src(e) for e, t in (ira.guards(st[0]) if st else []) if t is True]
         ctx.ob("R-PICKLE", "C12.1", ir, f"`<sampler>.{store}` (None in the pickle unless save_log_q) is recomputed from the re-loaded proposal when it is None", ok and any(g_.endswith(store + " is None") for g_ in guards), f"guards {guards}")
     from ..rules import samestore
